@@ -84,6 +84,11 @@ def child_definition(kind, W):
                 {"StartAt": "Wt", "States": {"Wt": {"Type": "Wait", "Seconds": SLOW, "End": True}}},
                 {"StartAt": "C1", "States": {"C1": T("childslow", End=True)}}]},
             "C2": T("childfn2", End=True)}}
+    if kind == "fail_in_parallel":
+        # the child fails inside a Parallel state one of whose Branches has finished already (its event is held for the join when the child ends)
+        return {"StartAt": "Par", "States": {"Par": {"Type": "Parallel", "End": True, "Branches": [
+            {"StartAt": "PA", "States": {"PA": {"Type": "Pass", "End": True}}},
+            {"StartAt": "PB", "States": {"PB": T("childfail", End=True)}}]}}}
     if kind == "slow_nested2":
         # the child is blocked two Map/Parallel levels deep (a Wait and a Task inside a Parallel inside a Map iteration) when the parent lets go of it
         inner = {"Type": "Parallel", "End": True, "Branches": [
@@ -100,7 +105,7 @@ def child_result(kind, inp):
         return "SUCCEEDED", {"got": inp, "k": 1}
     if kind == "two_step":
         return "SUCCEEDED", {"second": {"got": inp, "k": 1}}
-    if kind == "fail_task":
+    if kind in ("fail_task", "fail_in_parallel"):
         return "FAILED", "ChildErr"
     if kind == "fail_state":
         return "FAILED", "ChildFail"
@@ -116,7 +121,7 @@ def child_result(kind, inp):
 
 def child_duration(sc):
     k = sc["child"]
-    if k in ("succeed", "two_step", "fail_task"):
+    if k in ("succeed", "two_step", "fail_task", "fail_in_parallel"):
         return sc["child_delay"]
     if k == "fail_state":
         return 0
@@ -232,6 +237,33 @@ def run_child(sc):
 
         def child_terminals():
             return [(c, first_terminal(w, c)) for c in children]
+
+        # ack-after-consequences across the launch: when a synchronous child ends, completing the parent's Task (the parent's next event or terminal notification) is a
+        # consequence of the child's last handling; the events the child still holds (finished Branches waiting for a join) are released only after it has been handed over
+        # (not when it is the parent's Task that times out and cancels the child: then the child's end is the consequence)
+        if form != "async" and sc["shape"] == "plain" and not reason and len(children) == 1 and not (sc.get("timeout") and sc["timeout"] <= dur):
+            log_ = w.broker.oplog
+            c_ = children[0]
+
+            def about(o, arn_):
+                try:
+                    if o["exchange"] == "asl_workflow_engine":
+                        d_ = json.loads(o["body"])["detail"]
+                        return d_.get("executionArn") == arn_ and d_.get("status") != "RUNNING"
+                    if o["exchange"] == "" and any(q.startswith("asl_workflow_events") for q in o["queues"]):
+                        return json.loads(o["body"])["context"]["Execution"]["Id"] == arn_
+                except Exception:
+                    pass
+                return False
+            n_ = next((o["seq"] for o in log_ if o["kind"] == "publish" and o["exchange"] == "asl_workflow_engine" and about(o, c_)), None)
+            launch = next((o["seq"] for o in log_ if o["kind"] == "publish" and o["exchange"] == "" and about(o, c_)), None)
+            p_ = next((o["seq"] for o in log_ if o["kind"] == "publish" and launch is not None and o["seq"] > launch and about(o, parent)), None)
+            child_uids = {o["uid"] for o in log_ if o["kind"] == "publish" and o["exchange"] == "" and about(o, c_)}
+            if n_ is not None and p_ is not None:
+                early = [o for o in log_ if o["kind"] == "ack" and o["uid"] in child_uids and n_ < o["seq"] < p_]
+                if early:
+                    fails.append(("child-event-acked-before-parent-task-completed", "event uid %s of the child was acknowledged at op %d, after the child's terminal notification (op %d) "
+                                  "but before the parent's Task was completed (op %d)" % (early[0]["uid"], early[0]["seq"], n_, p_)))
 
         if reason:
             # --- invalid combinations fail the task (no handler in these machines: the execution fails)
@@ -712,7 +744,7 @@ def strategies():
         "form": st.sampled_from(["async", "sync", "sync", "sync2", "sync2", "sdk_sync"]),
         "parent_type": st.sampled_from(["STANDARD", "STANDARD", "STANDARD", "EXPRESS"]),
         "child_type": st.sampled_from(["STANDARD", "STANDARD", "EXPRESS"]),
-        "child": st.sampled_from(["succeed", "succeed", "two_step", "fail_task", "fail_state", "slow_wait", "slow_task", "slow_nested", "wait_then_slow_task", "fanout_then_slow_task", "slow_longform_task", "slow_nested2"]),
+        "child": st.sampled_from(["succeed", "succeed", "two_step", "fail_task", "fail_state", "slow_wait", "slow_task", "slow_nested", "wait_then_slow_task", "fanout_then_slow_task", "slow_longform_task", "slow_nested2", "fail_in_parallel"]),
         "child_exists": st.sampled_from([True] * 9 + [False]),
         "child_delay": st.sampled_from([0, 0.5, 3, 8]),
         "shape": st.sampled_from(["plain", "plain", "plain", "parallel", "parallel", "map"]),
